@@ -163,6 +163,17 @@ def cases(spec, ctx):
         case = multi.gen_case(rng, nvars=(1, nv_hi), depth=(1, 4), equal_valued=0.12)
         if rng.random() < 0.03:
             case["cond"] = None
+        elif rng.random() < 0.07:
+            # projection of a chain join: (x~y by one of two alternatives) and (z alone) and (y~z), few distinct values so that
+            # several (y, z) partners exist per x; only part of the variables selected
+            kinds = [rng.choice("PQ") for _ in range(3)]
+            J = lambda i, j: ["cmp", "==", ["v", i, [["a", rng.choice("ab")]]], ["v", j, [["a", rng.choice("ab")]]]]
+            parts = [["or", J(0, 1), J(0, 1)], ["cmp", rng.choice([">=", "<="]), ["v", 2, [["a", rng.choice("ab")]]], ["lit", rng.randint(0, 3)]], J(1, 2)]
+            if rng.random() < 0.3:
+                rng.shuffle(parts)          # (mostly: the disjunction first, the join partner y is not selected)
+            case = {"world": D.random_world(rng, np_=(3, 6), nq=(3, 6), hi=rng.choice([3, 4]), rich=False), "kinds": kinds,
+                    "cond": ["and"] + parts, "sel": rng.choice([[0], [0, 2], [2, 0], [0, 1], [2]])}
+            case["split"] = True
         case["caching"] = rng.random() < 0.7
         case["form"] = rng.choice(["set_of", "set_of", "direct_list"])
         case["how"] = rng.choice(["let", "let", "mix"])
@@ -171,7 +182,8 @@ def cases(spec, ctx):
 
 
 def _run(case, world, caching, times=1):
-    r = multi.evaluate(case, world, caching=caching, form=case.get("form", "set_of"), how=case.get("how", "let"), times=times)
+    r = multi.evaluate(case, world, caching=caching, form=case.get("form", "set_of"), how=case.get("how", "let"), times=times,
+                       split_top_and=bool(case.get("split")))
     return r if times > 1 else r[0]
 
 
